@@ -153,8 +153,46 @@ pub fn drive_c06(a: &Args) {
             }
         }
     }
+    // the same small scope over pairs of code points that a lossy comparison could confuse (surrogate range vs
+    // U+FFFD, equal low 16 bits, case, 8-bit truncation) and over the ends of the alphabet
+    let confusable: [(u32, u32); 9] = [(0xD800, 0xFFFD), (0xFFFD, 0xDFFF), (0x61, 0x10061), (0x20061, 0x61), (0x41, 0x61),
+        (0xFF, 0x1FF), (0, 0x10000), (0, MAX_CHAR), (0x80, 0)];
+    for (ci, &(p, q)) in confusable.iter().enumerate() {
+        let subjects = all_strings(&[p, q], 3);
+        let patterns = all_strings(&[p, q], 2);
+        for (k, s) in subjects.iter().enumerate() {
+            let is = ints_for(s.len());
+            for (j, t) in patterns.iter().enumerate() {
+                if !a.thorough() && (k + j + ci) % 2 != (a.seed as usize) % 2 && s.len() == 3 {
+                    continue;
+                }
+                let u = if (k + j) % 2 == 0 { vec![p] } else { vec![q, p] };
+                call_all(&mut out, s, t, &u, &is[..is.len().min(6)], &is[..is.len().min(6)]);
+            }
+        }
+    }
+    // long subjects (lengths around 8/16/32/64: block-wise code) with the pattern at the block boundaries
+    for &len in &[8usize, 15, 16, 17, 32, 33, 64] {
+        for pos in [0usize, 7, 14, 15, 16, len - 2] {
+            if pos + 2 > len {
+                continue;
+            }
+            let mut s: Vec<u32> = (0..len).map(|i| la + (i as u32 % 2) * 0).collect();
+            s[pos] = lb;
+            s[pos + 1] = lb;
+            let is: Vec<i32> = vec![0, pos as i32, pos as i32 + 1, len as i32 - 1, len as i32, 16, 17];
+            for t in [vec![lb, lb], vec![lb], vec![la, lb, lb], vec![lb, lb, la], vec![lb, la, lb]] {
+                call_all(&mut out, &s, &t, &vec![la, lb], &is, &is);
+            }
+            // a string against itself with one late difference
+            let mut s2 = s.clone();
+            s2[len - 1] = lb;
+            call_all(&mut out, &s, &s2, &vec![], &is[..3], &is[..3]);
+            call_all(&mut out, &s2, &s2[pos..].to_vec(), &vec![], &is[..3], &is[..3]);
+        }
+    }
     // random strings over real code points
-    let pool = [0u32, 1, 0x41, 0x42, 0xFFFF, 0x10000, MAX_CHAR - 1, MAX_CHAR];
+    let pool = [0u32, 1, 0x41, 0x42, 0xFFFF, 0x10000, MAX_CHAR - 1, MAX_CHAR, 0xD800, 0xDFFF, 0xFFFD];
     for _ in 0..a.sz(800, 15000) {
         let nl = rng.range(1, 3) as usize;
         let letters: Vec<u32> = (0..nl).map(|_| if rng.coin(1, 2) { *rng.pick(&pool) } else { rng.ch() }).collect();
@@ -198,6 +236,26 @@ pub fn drive_c09(a: &Args) {
             m.insert("t".into(), json!(t));
             bool_result(&mut m, guarded(|| str_le(&ss, &ts)));
             out.emit(Value::Object(m));
+        }
+    }
+    // long common prefixes (lengths around 8/16/32/64) followed by every short tail
+    let tails: Vec<Vec<u32>> = vec![vec![], vec![0x30], vec![0x39], vec![0x30, 0x39], vec![0x39, 0x30], vec![MAX_CHAR]];
+    for &len in &[7usize, 8, 15, 16, 17, 31, 32, 33, 64] {
+        let prefix: Vec<u32> = (0..len).map(|i| 0x41 + (i as u32 % 5)).collect();
+        for x in &tails {
+            for y in &tails {
+                let (mut s, mut t) = (prefix.clone(), prefix.clone());
+                s.extend(x.iter());
+                t.extend(y.iter());
+                let (ss, ts) = (mk(&s), mk(&t));
+                for (name, r) in [("lt", guarded(|| str_lt(&ss, &ts))), ("le", guarded(|| str_le(&ss, &ts)))] {
+                    let mut m = ev(name);
+                    m.insert("s".into(), json!(s));
+                    m.insert("t".into(), json!(t));
+                    bool_result(&mut m, r);
+                    out.emit(Value::Object(m));
+                }
+            }
         }
     }
     // digit strings around every power of ten and around 2^31 / 2^32
@@ -344,6 +402,35 @@ pub fn drive_c17(a: &Args) {
             let arr = [v[0], v[1]];
             out.emit(ctor_event("array", v.clone(), guarded(|| SmtString::from(&arr))));
         }
+    }
+    // longer inputs (lengths around 8/16/32/64: block-wise code) with one or two invalid elements at the block
+    // boundaries; values just above the limit, with only high bits set, and the largest
+    let bad_vals = [0x30000u32, 0x3FFFF, 0x40000, 0x10FFFF, 0x110000, u32::MAX];
+    for &len in &[7usize, 8, 9, 15, 16, 17, 20, 31, 32, 33, 64, 65] {
+        let positions: Vec<usize> = vec![0, 5, 7, 8, 15, 16, 17, 31, 32, len - 1];
+        for (pi, &p) in positions.iter().enumerate() {
+            if p >= len {
+                continue;
+            }
+            for (bi, &bv) in bad_vals.iter().enumerate() {
+                if !a.thorough() && (pi + bi + len) % 2 != (a.seed as usize) % 2 {
+                    continue;
+                }
+                let mut v: Vec<u32> = (0..len).map(|i| 0x61 + (i as u32 % 3)).collect();
+                v[p] = bv;
+                if bi % 2 == 1 && p + 1 < len {
+                    v[len - 1] = 0x2FFFF;
+                }
+                out.emit(ctor_event("slice", v.clone(), guarded(|| SmtString::from(&v[..]))));
+                out.emit(ctor_event("vec", v.clone(), guarded(|| SmtString::from(v.clone()))));
+            }
+        }
+        let ok: Vec<u32> = (0..len).map(|i| if i % 5 == 0 { 0x2FFFF } else { 0x61 }).collect();
+        out.emit(ctor_event("vec", ok.clone(), guarded(|| SmtString::from(ok.clone()))));
+        // Rust strings of that many characters with a non-SMT character inside
+        let s: String = (0..len).map(|i| if i == len / 2 { char::from_u32(0x30000).unwrap() } else { 'a' }).collect();
+        out.emit(ctor_event("str", cps(&s), guarded(|| SmtString::from(s.as_str()))));
+        out.emit(ctor_event("string", cps(&s), guarded(|| SmtString::from(s.clone()))));
     }
     let n = out.finish();
     println!("{{\"family\":\"c17\",\"events\":{}}}", n);
